@@ -72,14 +72,32 @@ class Obligation:
         if B not in cache:
             self.materialise()
             from .smt import to_smt2, bounded_expand
-            exp = bounded_expand(self.assertions, B)
+            size = []
+            if self.expect == "sat" and self.inputs:
+                # a witness with short input lists is as good as any: `sat` of the strengthened query is a genuine `sat`
+                from .sym import length_constraints
+                for v_ in self.inputs.values():
+                    try:
+                        size += length_constraints(v_, B)
+                    except Exception:
+                        pass
+            exp = bounded_expand(self.assertions + size, B)
             cache[B] = to_smt2(exp + theory_axioms(exp))
         return cache[B]
 
     def stub(self):
         """picklable form (no z3 objects) for obligations generated in a worker process"""
-        return dict(id=self.id, kind=self.kind, expect=self.expect, meta=self.meta, smt2=self.smt2(),
-                    smt2_b={B: self.smt2_expanded(B) for B in ((2,) if self.expect == "sat" else ())})
+        exps = {}
+        if self.expect == "sat":
+            for B in (2, 3, 4):     # witnesses are searched on bounded expansions; larger bounds only while they stay small
+                try:
+                    q = self.smt2_expanded(B)
+                except Exception:
+                    break
+                if B > 2 and len(q) > 1_500_000:
+                    break
+                exps[B] = q
+        return dict(id=self.id, kind=self.kind, expect=self.expect, meta=self.meta, smt2=self.smt2(), smt2_b=exps)
 
     @classmethod
     def from_stub(cls, d, regen):
